@@ -41,7 +41,7 @@ def run(chk):
     open(can, "w").write(json.dumps(v) + "\n")
     p = vlib.vh(["limits-replay"], stdin_path=can)
     if b'"bad":true' not in p.stdout:
-        raise vlib.ToolError("canary (depth + 1) not rejected by the comparator")
+        chk.canary_failed.append("canary (depth + 1) not rejected by the comparator")
     chk.stage("nests")
     # token strings x limit grid, observations
     tcases = os.path.join(work, "cases.ndjson")
